@@ -373,7 +373,9 @@ def rule_complete(ctx):
     j = le.get("j")
     ctx.check(R, "complete_basic_block/new-index-is-length", j is not None and render(strip(j)).replace(" ", "") == "basic_blocks.len()", render(j) if j else "?", site(LF, fn))
     push = list(method_calls(fn["body"], "push"))
-    ok = len(push) == 1 and render(push[0]["args"][0]).replace(" ", "") == "BasicBlock::new(meta,j,loop_depth)" and not unconditional(fn["body"], push[0])
+    import sgrep as _sg
+
+    ok = len(push) == 1 and _sg.match(_sg.pattern("BasicBlock::new(meta, j, loop_depth)"), push[0]["args"][0], {}, _sg.lets(fn["body"])) and not unconditional(fn["body"], push[0])
     ctx.check(R, "complete_basic_block/one-block-with-that-index", ok, render(push[0])[:100] if push else "no push", site(LF, fn))
     asg = [n for n in walk(fn["body"]) if n["k"] == "Assign" and "false_index" in render(n["l"])]
     if len(asg) != 1:
